@@ -71,6 +71,19 @@ func (e *Exec) callSiteAsserts(st *State, call *ast.CallExpr, name string, recv 
 		e.callAsserted[ca] = true
 		savedA, savedR := e.callArgs, e.callRecv
 		e.callArgs, e.callRecv = args, recv
+		if ca.Capture {
+			// ghost variable: remember the value of the expression at this call
+			e.spec++
+			v := e.eval(st.Clone(), ca.Clause.Expr)
+			e.spec--
+			e.callArgs, e.callRecv = savedA, savedR
+			if o := e.capObj[ca.Clause.Label]; o != nil {
+				st.Vars[o] = v
+			} else {
+				e.unsupported(call.Pos(), "capture [%s]: no ghost variable", ca.Clause.Label)
+			}
+			continue
+		}
 		t := e.evalSpec(st, ca.Clause)
 		e.callArgs, e.callRecv = savedA, savedR
 		if ca.Assume {
